@@ -117,6 +117,12 @@ def _const_eval(node, env):
         return frozenset(_const_eval(e, env) for e in node.elts)
     if isinstance(node, ast.Dict):
         return {_const_eval(k, env): _const_eval(v, env) for k, v in zip(node.keys, node.values)}
+    if isinstance(node, ast.Call) and isinstance(node.func, ast.Attribute) and node.func.attr == 'to_bytes' \
+            and not node.keywords and len(node.args) == 2:
+        # module-level NAME = (<int const>).to_bytes(<int const>, 'big' | 'little')   (crypto/chacha.py _CTR_0 / _CTR_1)
+        v, n, order = (_const_eval(x, env) for x in (node.func.value, node.args[0], node.args[1]))
+        if type(v) is int and type(n) is int and order in ('big', 'little'):
+            return v.to_bytes(n, order)
     raise ValueError('not const')
 
 
